@@ -25,7 +25,12 @@ EXPLANATION = (
     "established hop; the EXTEND request names key and address of one and the same peer on every pair of reaching definitions. "
     "Expressions are compared after expanding single-assignment locals and binding the parameters of helper functions that do "
     "not exist in the reviewed tree to the caller's arguments (the helper is analysed in the caller's context, also when it "
-    "returns a decision the caller acts on). Where the identifier test is not a dominating fact at the call (spelled through "
+    "returns a decision the caller acts on). A function that carries a decorator which is defined in this repository and is not part "
+    "of the reviewed tree denotes the wrapper that decorator returns (factory arguments bound to the wrapper's free variables, "
+    "*args / **kwargs spelled out); the wrapper's call of the function it was given runs the next decorator layer and finally the "
+    "decorated body, so a guard carried by a decorator is a dominating fact of the body and code of the wrapper is code of the handler; "
+    "a new decorator of another shape than 'define one wrapper and return it' is undecided. "
+    "Where the identifier test is not a dominating fact at the call (spelled through "
     "conditional expressions / result objects / operator functions, or moved into the callee), it is decided by reachability under "
     "an assumption: everything that processes an answer must be unreachable both when no RetryRequestCache exists for the circuit "
     "and when its packet_identifier differs (three-valued evaluation of the conditions, locals with several definitions followed "
@@ -279,6 +284,159 @@ def _boolean_valued(e: ast.AST, depth: int = 4) -> bool:
     return False
 
 
+# ---- a function decorated with a NEW private decorator denotes the wrapper the decorator returns
+def _named_function(repo, k: FuncInfo, ref: ast.AST) -> FuncInfo | None:
+    """the function of this repository a decorator expression of k names (bare name, name of the class body, module.name)"""
+    ref = strip_cast(ref)
+    try:
+        if isinstance(ref, ast.Name):
+            if k.cls is not None and ref.id in k.cls.methods and k.cls.methods[ref.id].node is not k.node:
+                return k.cls.methods[ref.id]
+            r = repo.resolve_name(k.module, ref.id)
+            return r if isinstance(r, FuncInfo) else None
+        if isinstance(ref, ast.Attribute) and isinstance(ref.value, ast.Name):
+            r = repo.resolve_name(k.module, ref.value.id)
+            if isinstance(r, tuple) and r[0] == "module" and r[1] is not None:
+                return r[1].functions.get(ref.attr)
+            if hasattr(r, "methods") and ref.attr in r.methods:
+                return r.methods[ref.attr]
+            if k.cls is not None and ref.value.id in ("self", "cls", k.cls.name):
+                return k.cls.lookup(ref.attr)
+    except Exception:  # noqa: BLE001
+        return None
+    return None
+
+
+def _is_wraps(mod, d: ast.AST) -> bool:
+    d = strip_cast(d)
+    return isinstance(d, ast.Call) and (_imported_as(mod, d.func, "functools", ("wraps",)) or chain(d.func) in ("functools.wraps", "wraps"))
+
+
+def _returned_def(repo, f: FuncInfo) -> FuncInfo | None:
+    """
+    f does nothing but define one nested function and return it (``return g`` / ``return wraps(x)(g)``; a docstring is allowed,
+    g may be decorated with functools.wraps only): that nested function, else None.
+    """
+    body = [st for st in f.node.body if not (isinstance(st, ast.Expr) and isinstance(const_value(st.value), str)) and not isinstance(st, ast.Pass)]
+    if len(body) != 2 or not isinstance(body[0], (ast.FunctionDef, ast.AsyncFunctionDef)) or not isinstance(body[1], ast.Return) or body[1].value is None:
+        return None
+    g, rv = body[0], strip_cast(body[1].value)
+    if isinstance(rv, ast.Call) and _is_wraps(f.module, rv.func) and len(rv.args) == 1 and not rv.keywords:
+        rv = strip_cast(rv.args[0])
+    if not (isinstance(rv, ast.Name) and rv.id == g.name) or not all(_is_wraps(f.module, d) for d in g.decorator_list):
+        return None
+    return getattr(g, "_info", None)
+
+
+def _plain_bind(f: FuncInfo, c: ast.Call) -> dict | None:
+    """parameters of the plain function f bound to the argument expressions of the call c as written (defaults filled in), None if not evident"""
+    a = f.node.args
+    if a.vararg or a.kwarg or any(isinstance(x, ast.Starred) for x in c.args) or any(kw.arg is None for kw in c.keywords):
+        return None
+    pos = [x.arg for x in a.posonlyargs + a.args]
+    if len(c.args) > len(pos):
+        return None
+    bind = dict(zip(pos, c.args))
+    names = pos + [x.arg for x in a.kwonlyargs]
+    for kw in c.keywords:
+        if kw.arg not in names or kw.arg in bind:
+            return None
+        bind[kw.arg] = kw.value
+    defaults = dict(zip(pos[len(pos) - len(a.defaults):], a.defaults)) if a.defaults else {}
+    defaults.update({x.arg: d for x, d in zip(a.kwonlyargs, a.kw_defaults) if d is not None})
+    for p_ in names:
+        if p_ not in bind:
+            if p_ not in defaults:
+                return None
+            bind[p_] = defaults[p_]
+    return bind
+
+
+def _decorator_layers(ctx: Ctx, k: FuncInfo) -> list[tuple[FuncInfo, str, dict]]:
+    """
+    The NEW (not in the reviewed tree) decorators of k that this repository defines, outermost first, each as (wrapper function -
+    given k's class, so that `self` resolves -, the wrapper's free variable that denotes the decorated function, the other free
+    variables bound by a decorator factory call).  Calling k runs the first wrapper; the wrapper's call of its function variable runs
+    the next layer and finally k's own body.  Decorators of the reviewed tree, built-in and third-party ones are not layers (they are
+    treated as before).  A decorator that hands back the function it was given (registration at import time) is transparent.
+    A new decorator of another shape cannot be followed: undecided.
+    """
+    cache = ctx.__dict__.setdefault("_c08_layers", {})
+    if id(k.node) in cache:
+        return cache[id(k.node)]
+    cache[id(k.node)] = []
+    out = []
+    if isinstance(k.node, (ast.FunctionDef, ast.AsyncFunctionDef)):
+        for d in k.node.decorator_list:
+            call = strip_cast(d) if isinstance(strip_cast(d), ast.Call) else None
+            dfi = _named_function(ctx.repo, k, call.func if call is not None else d)
+            if dfi is None or not _is_new(dfi) or dfi.node is k.node:
+                continue
+            closure: dict = {}
+            plain = dfi
+            if call is not None:
+                b = _plain_bind(dfi, call)
+                plain = _returned_def(ctx.repo, dfi)
+                if b is None or plain is None:
+                    raise AnalysisError(f"undecided: the new decorator `@{norm(d)[:60]}` of {k.qualname} is not a factory that only defines and returns a decorator")
+                closure.update(b)
+            pa = plain.node.args
+            if len(pa.posonlyargs + pa.args) != 1 or pa.vararg or pa.kwarg or pa.kwonlyargs:
+                raise AnalysisError(f"undecided: the new decorator `@{norm(d)[:60]}` of {k.qualname} does not take exactly the decorated function")
+            fname = (pa.posonlyargs + pa.args)[0].arg
+            rets = [r for r in walk_no_nested(plain.node) if isinstance(r, ast.Return)]
+            if rets and all(r.value is not None and isinstance(strip_cast(r.value), ast.Name) and strip_cast(r.value).id == fname for r in rets) \
+                    and not local_defs(plain, fname):
+                continue        # hands the function back unchanged
+            w = _returned_def(ctx.repo, plain)
+            if w is None:
+                raise AnalysisError(f"undecided: the new decorator `@{norm(d)[:60]}` of {k.qualname} does more than define and return one wrapper function")
+            if local_defs(w, fname) or is_param(w, fname) or any(not is_param(w, x) and local_defs(w, x) for x in closure):
+                raise AnalysisError(f"undecided: the wrapper of the new decorator `@{norm(d)[:60]}` rebinds a variable of its enclosing scope")
+            out.append((FuncInfo(w.name, w.qualname, w.node, w.module, k.cls), fname, closure))
+    cache[id(k.node)] = out
+    return out
+
+
+def _entry(ctx: Ctx, fi: FuncInfo) -> "_View":
+    """the view that stands for a call of fi from outside the analysed code: its outermost new decorator wrapper if it has one"""
+    layers = _decorator_layers(ctx, fi)
+    if not layers:
+        return _View(ctx, fi)
+    wfi, fname, closure = layers[0]
+    a = wfi.node.args
+    bind = {n: clone(x) for n, x in closure.items() if not is_param(wfi, n)}
+    if a.vararg or a.kwarg:
+        # wrapper(self, *args, **kwargs): seen as called with the decorated function's own parameters, by name
+        own = [x.arg for x in fi.node.args.posonlyargs + fi.node.args.args][len(a.posonlyargs + a.args):]
+        if a.vararg:
+            bind[a.vararg.arg] = ast.Tuple(elts=[ast.Name(id=x, ctx=ast.Load()) for x in own], ctx=ast.Load())
+        if a.kwarg:
+            bind[a.kwarg.arg] = ast.Dict(keys=[], values=[])
+    v = _View(ctx, wfi, bind)
+    v.wrapped = (fname, fi, 1)
+    return v
+
+
+def _body_view(ctx: Ctx, fi: FuncInfo) -> "_View":
+    """the view of fi's own body, reached through the wrappers of its new decorators (so that their guards are facts of the body)"""
+    e = _entry(ctx, fi)
+    if e.wrapped is None:
+        return e
+    vs = [v for v in e.closure() if v.fi.node is fi.node]
+    if len(vs) != 1:
+        raise AnalysisError(f"undecided: the wrappers of the new decorators of {fi.qualname} do not call it at exactly one evident place")
+    return vs[0]
+
+
+def _entry_params(root: "_View") -> list[str]:
+    """parameter names of the function a root view stands for (those of the decorated function when the wrapper takes *args)"""
+    a = root.fi.node.args
+    if root.wrapped is not None and (a.vararg or a.kwarg):
+        return root.wrapped[1].params()
+    return root.fi.params()
+
+
 class _View:
     """
     A function analysed in the context of one call: its parameters are bound to the caller's argument expressions (already
@@ -294,6 +452,8 @@ class _View:
         self.extra: list = []           # facts (in the caller's terms) under which a dispatch selects this callee
         self._targets: dict | None = None
         self._views: dict = {}
+        # a decorator wrapper: (its free variable that denotes the decorated function, that function, index of the next layer)
+        self.wrapped: tuple | None = None
 
     def stack(self) -> list[FuncInfo]:
         out, v = [], self
@@ -481,30 +641,86 @@ class _View:
         return out
 
     # ---- calls of helpers that are not part of the reviewed tree
-    def bind_call(self, k: FuncInfo, c: ast.Call, ref: ast.AST | None = None) -> "_View | None":
-        """view of k for the call c; ref: the expression that denotes k (default c.func; differs for dispatched calls)"""
+    def bind_call(self, k: FuncInfo, c: ast.Call, ref: ast.AST | None = None, layer: int = 0) -> "_View | None":
+        """
+        view of k for the call c; ref: the expression that denotes k (default c.func; differs for dispatched calls).
+        A k that carries new decorators is entered through their wrappers (layer: how many of them the call is already inside).
+        """
+        layers = _decorator_layers(self.ctx, k)
+        if layer < len(layers):
+            wfi, fname, closure = layers[layer]
+            v = self._bind(wfi, k, c, ref)
+            if v is not None:
+                for n, x in closure.items():
+                    v.bind.setdefault(n, clone(x))
+                v.wrapped = (fname, k, layer + 1)
+            return v
+        return self._bind(k, k, c, ref)
+
+    def _spread(self, c: ast.Call) -> tuple[list, list] | None:
+        """positional arguments and (name, value) keywords of c with ``*seq`` / ``**map`` of an evident tuple / dict display (a bound *args / **kwargs) spelled out"""
+        args: list = []
+        for x in c.args:
+            if isinstance(x, ast.Starred):
+                seq = self.expand(x.value)
+                if not isinstance(seq, (ast.Tuple, ast.List)) or any(isinstance(y, ast.Starred) for y in seq.elts):
+                    return None
+                args += [("x", y) for y in seq.elts]
+            else:
+                args.append(("r", x))
+        kws: list = []
+        for kw in c.keywords:
+            if kw.arg is None:
+                d = self.expand(kw.value)
+                if not isinstance(d, ast.Dict) or not all(kk is not None and isinstance(const_value(kk), str) for kk in d.keys):
+                    return None
+                kws += [(const_value(kk), ("x", val)) for kk, val in zip(d.keys, d.values)]
+            else:
+                kws.append((kw.arg, ("r", kw.value)))
+        return args, kws
+
+    def _bind(self, k: FuncInfo, decl: FuncInfo, c: ast.Call, ref: ast.AST | None) -> "_View | None":
+        """k: the function whose body runs (decl itself or a decorator wrapper standing for it); decl: the function as declared in its class"""
         ref = strip_cast(ref if ref is not None else c.func)
         a = k.node.args
-        if a.vararg or a.kwarg or any(isinstance(x, ast.Starred) for x in c.args) or any(kw.arg is None for kw in c.keywords):
+        sp = self._spread(c)
+        if sp is None:
             return None
+        cargs, ckws = sp
+
+        def val(t):
+            return self.expand(t[1]) if t[0] == "r" else clone(t[1])       # spread elements are already in expanded form
         pos = [x.arg for x in a.posonlyargs + a.args]
-        static = any(chain(d) == "staticmethod" for d in k.node.decorator_list)
+        static = any(chain(d) == "staticmethod" for d in decl.node.decorator_list)
         bind = {}
-        if k.cls is not None and not static and isinstance(ref, ast.Attribute) and pos:
+        first: list = []
+        if decl.cls is not None and not static and isinstance(ref, ast.Attribute) and not pos and a.vararg:
+            first = [self.expand(strip_cast(ref.value))]        # wrapper(*args): the receiver is args[0]
+        if decl.cls is not None and not static and isinstance(ref, ast.Attribute) and pos:
             recv = strip_cast(ref.value)
             if not (isinstance(recv, ast.Name) and recv.id in ("self", "cls") and self.fi.cls is not None):
-                if any(chain(d) == "classmethod" for d in k.node.decorator_list):
+                if any(chain(d) == "classmethod" for d in decl.node.decorator_list):
                     return None
                 bind[pos[0]] = self.expand(recv)       # a method of another object: its `self` is the receiver
             pos = pos[1:]       # self / cls is the receiver
-        if len(c.args) > len(pos):
+        if len(cargs) > len(pos) and not a.vararg:
             return None
-        bind.update({p: self.expand(x) for p, x in zip(pos, c.args)})
+        bind.update({p: val(x) for p, x in zip(pos, cargs)})
+        if a.vararg:
+            bind[a.vararg.arg] = ast.Tuple(elts=first + [val(x) for x in cargs[len(pos):]], ctx=ast.Load())
         names = pos + [x.arg for x in a.kwonlyargs]
-        for kw in c.keywords:
-            if kw.arg not in names or kw.arg in bind:
+        extra_kw: list = []
+        for kwname, kwval in ckws:
+            if kwname in bind:
                 return None
-            bind[kw.arg] = self.expand(kw.value)
+            if kwname not in names:
+                if not a.kwarg:
+                    return None
+                extra_kw.append((kwname, val(kwval)))
+                continue
+            bind[kwname] = val(kwval)
+        if a.kwarg:
+            bind[a.kwarg.arg] = ast.Dict(keys=[ast.Constant(value=n) for n, _ in extra_kw], values=[x for _, x in extra_kw])
         allpos = [x.arg for x in a.posonlyargs + a.args]
         defaults = dict(zip(allpos[len(allpos) - len(a.defaults):], a.defaults)) if a.defaults else {}
         defaults.update({x.arg: d for x, d in zip(a.kwonlyargs, a.kw_defaults) if d is not None})
@@ -587,9 +803,23 @@ class _View:
             return []
         return []
 
+    def _calls_wrapped(self, f: ast.AST) -> bool:
+        f = strip_cast(f)
+        return self.wrapped is not None and isinstance(f, ast.Name) and f.id == self.wrapped[0] and not is_param(self.fi, f.id) and not local_defs(self.fi, f.id)
+
+    def depth(self) -> int:
+        """number of functions on the call stack of this view (the wrappers of decorators do not count)"""
+        n, v = 0, self
+        while v is not None:
+            n += v.wrapped is None
+            v = v.up
+        return n
+
     def call_targets(self, c: ast.Call) -> list[tuple[FuncInfo, ast.AST, list]]:
         """(callee, expression denoting it, selecting facts) for a call in this function; [] if the callee is not known"""
         f = strip_cast(c.func)
+        if self._calls_wrapped(f):
+            return [(self.wrapped[1], f, [])]        # the wrapper of a decorator runs the function it decorates
         direct = isinstance(f, ast.Attribute) or isinstance(f, ast.Name) and not is_param(self.fi, f.id) and not local_defs(self.fi, f.id)
         if direct:
             try:
@@ -615,10 +845,10 @@ class _View:
     def _helper_targets(self) -> dict:
         if self._targets is None:
             self._targets = {}
-            if len(self.stack()) <= 4:
+            if self.depth() <= 4 and len(self.stack()) <= 8:
                 for c in calls(self.fi, nested=False):
                     ts = [(k, ref, facts) for k, ref, facts in self.call_targets(c)
-                          if _is_new(k) and k not in self.stack()
+                          if (_is_new(k) or self._calls_wrapped(ref)) and k not in self.stack()
                           and not any(isinstance(n, (ast.Yield, ast.YieldFrom)) for n in walk_no_nested(k.node))]   # a generator call does not run the body
                     if ts:
                         self._targets[id(c)] = (c, ts)
@@ -633,7 +863,7 @@ class _View:
             self._views[id(c)] = []           # re-entrancy guard while the arguments are expanded
             out = []
             for k, ref, facts in t[1]:
-                kv = self.bind_call(k, c, ref)
+                kv = self.bind_call(k, c, ref, self.wrapped[2] if self._calls_wrapped(ref) else 0)
                 if kv is not None:
                     kv.extra = list(facts)
                     out.append(kv)
@@ -1131,7 +1361,7 @@ def _old_retry_cache_dropped(v: "_View", nodes: list, *, local: bool = False, de
 
 
 def _old_retry_cache_dropped_before(ctx: Ctx, fi: FuncInfo, site: ast.AST) -> bool:
-    v = _View(ctx, fi)
+    v = _body_view(ctx, fi)
     return _old_retry_cache_dropped(v, v.cfg.nodes_for(site))
 
 
@@ -1462,7 +1692,7 @@ def _acceptances(ctx: Ctx) -> list[tuple[_View, ast.Call, _View | None, list]]:
         ctx._c08_accept_refs = refs
         ours = _ours(ctx)
         for q in _ANSWER_HANDLERS:
-            r = _View(ctx, ctx.repo.method("TunnelCommunity", q.split(".")[1], TC))
+            r = _entry(ctx, ctx.repo.method("TunnelCommunity", q.split(".")[1], TC))
             for v in r.closure():
                 for c in calls(v.fi):
                     for k, ref, facts in v.call_targets(c):
@@ -1478,7 +1708,7 @@ def _acceptances(ctx: Ctx) -> list[tuple[_View, ast.Call, _View | None, list]]:
 
 def _handler_members(ctx: Ctx) -> set[FuncInfo]:
     """the answer handlers and the new helpers that only they (transitively) call"""
-    views = [v for q in _ANSWER_HANDLERS for v in _View(ctx, ctx.repo.method("TunnelCommunity", q.split(".")[1], TC)).closure()]
+    views = [v for q in _ANSWER_HANDLERS for v in _entry(ctx, ctx.repo.method("TunnelCommunity", q.split(".")[1], TC)).closure()]
     members = _closure_functions(views)
     changed = True
     while changed:
@@ -1496,9 +1726,24 @@ def _root(v: _View) -> _View:
     return v
 
 
+def _payload_intact(root: _View, payload: str) -> bool:
+    """
+    the name `payload` denotes the handler's payload argument throughout the root function: it is a parameter that is never rebound,
+    or - in a decorator wrapper that takes *args - the one local that is defined once as that positional argument
+    """
+    defs = local_defs(root.fi, payload)
+    if not defs:
+        return True
+    a = root.fi.node.args
+    if root.wrapped is None or not a.vararg or is_param(root.fi, payload) or len(defs) != 1:
+        return False
+    x = root.expand(ast.Name(id=payload, ctx=ast.Load()))
+    return isinstance(x, ast.Name) and x.id == payload
+
+
 def _circuit_terms(r: _View) -> tuple[str, str, str]:
     """(payload parameter of the handler, the circuit the answer is for, its pending hop) in the handler's terms"""
-    p = _root(r).fi.params()[2]
+    p = _entry_params(_root(r))[2]
     return p, f"self.circuits[{p}.circuit_id]", f"self.circuits[{p}.circuit_id].unverified_hop"
 
 
@@ -2184,6 +2429,8 @@ def _is_answer(v: _View, name: str, payload: str) -> bool:
         memo[name] = False
         if v.up is None and name == payload and is_param(v.fi, name) and not local_defs(v.fi, name):
             memo[name] = True
+        elif v.up is None and name == payload and v.wrapped is not None and local_defs(v.fi, name):
+            memo[name] = _payload_intact(v, payload)        # wrapper(self, *args): `payload = args[1]`
         elif name in v.bind and not local_defs(v.fi, name):
             memo[name] = norm(v.bind[name]) == payload
         elif not is_param(v.fi, name):
@@ -2504,7 +2751,7 @@ def rule_identifier(ctx: Ctx) -> None:
             views = w.closure()
             touched = [v.xn(x.func.value, obj=True) for v, x, kind in _accept_sites(views) if kind == "add_hop" and isinstance(x.func, ast.Attribute)]
             touched += [v.xn(getattr(_store_target(x, "unverified_hop"), "value", None), obj=True) for v, x, kind in _accept_sites(views) if kind == "pending"]
-            args_ok = bool(touched) and all(t == circ for t in touched) and not local_defs(_root(r).fi, payload)
+            args_ok = bool(touched) and all(t == circ for t in touched) and _payload_intact(_root(r), payload)
         guard_ok = bool(gets) and ident_ok
         if not guard_ok:
             # the test may be spelled differently or sit in the callee: whatever processing an answer does must be out of
@@ -2579,7 +2826,7 @@ def rule_identifier(ctx: Ctx) -> None:
     # each attempt constructs a new cache and sends *its* identifier
     for meth, pl in (("send_initial_create", "CreatePayload"), ("send_extend", "ExtendPayload")):
         fi = repo.method("TunnelCommunity", meth, TC)
-        views = _View(ctx, fi).closure()
+        views = _entry(ctx, fi).closure()
         ctors = [(v, c) for v in views for c in calls(v.fi, "RetryRequestCache")]
         pls = [(v, c) for v in views for c in calls(v.fi, pl)]
         ok = len(ctors) == 1 and len(pls) == 1
@@ -2602,7 +2849,7 @@ def rule_identifier(ctx: Ctx) -> None:
                   f"{meth} does not bind the request to a fresh retry cache identifier")
 
 
-def _suspension_before(v: _View, nodes: list, skip: ast.AST | None = None) -> str | None:
+def _suspension_before(v: _View, nodes: list, skip: ast.AST | None = None, coroutine: bool = False) -> str | None:
     """
     A point where the event loop can run other handlers lies on some path from the entry of the outermost function to `nodes`
     of view v: an await / async with / async for in v before the nodes, a coroutine callee that is not awaited on the spot
@@ -2620,7 +2867,10 @@ def _suspension_before(v: _View, nodes: list, skip: ast.AST | None = None) -> st
     if v.up is None:
         return None
     awaited = parent(v.site) if isinstance(parent(v.site), ast.Await) else None
-    if v.fi.is_async and awaited is None:
+    if (v.fi.is_async or coroutine) and awaited is None and v.up.wrapped is not None and not v.up.fi.is_async and isinstance(parent(v.site), ast.Return):
+        # the synchronous wrapper of a decorator returns the coroutine to its own caller: awaited on the spot iff the wrapper's call is
+        return _suspension_before(v.up, v.up.cfg.nodes_for(v.site), None, True)
+    if (v.fi.is_async or coroutine) and awaited is None:
         return f"{v.fi.qualname} is a coroutine that `{norm(enclosing_stmt(v.site))[:70]}` in {v.up.fi.qualname} does not await on the spot (it runs later)"
     return _suspension_before(v.up, v.up.cfg.nodes_for(v.site), awaited)
 
@@ -2703,7 +2953,7 @@ def rule_verify_before_accept(ctx: Ctx) -> None:
               "the KDF is not fed the complete shared secret: the half that binds the keys to the selected peer's static key is dropped, so whoever answers with an own ephemeral key shares the accepted keys")
     # ---- inside the verification
     vf = repo.method("TunnelCrypto", VERIFY, CR)
-    vv = _View(ctx, vf)
+    vv = _body_view(ctx, vf)
     p = vf.params()
     rets = [r for r in walk_no_nested(vf.node) if isinstance(r, ast.Return)]
     ctx.anchor(rets, "return in verify_and_generate_shared_secret")
@@ -2731,7 +2981,7 @@ def rule_verify_before_accept(ctx: Ctx) -> None:
               "crypto_auth_verify is the ipv8_rust_tunnels primitive", "crypto_auth_verify is shadowed by a local definition")
     # responder side mirrors the order
     gf = repo.method("TunnelCrypto", "generate_diffie_shared_secret", CR)
-    gv = _View(ctx, gf)
+    gv = _body_view(ctx, gf)
     keep = frozenset({"tmp_key"})       # the ephemeral key object keeps its name: identity matters, not its constructor text
     rets = [(r, gv.expand(r.value, keep=keep)) for r in walk_no_nested(gf.node) if isinstance(r, ast.Return) and r.value is not None]
     rets = [(r, t) for r, t in rets if isinstance(t, ast.Tuple)]
@@ -2780,7 +3030,7 @@ def rule_unverified_hop_writers(ctx: Ctx) -> None:
     # the closed set of writers: the four reviewed functions plus new helpers only they reach (analysed with bound parameters)
     owner: dict[FuncInfo, tuple[FuncInfo, _View]] = {}
     for root in (cinit, ours, sic, se):
-        views = _View(ctx, root).closure()
+        views = _entry(ctx, root).closure()
         members = _closure_functions(views)
         for v in views:
             if v.fi is not root and any(f is None or f not in members for _, f, _c in repo.callers_of_name(v.fi.name)):
@@ -2827,7 +3077,7 @@ def rule_unverified_hop_writers(ctx: Ctx) -> None:
             and isinstance(a3, ast.Attribute) and a3.attr == "dh_first_part" and _is_pending_hop(ctx, se, a3.value, c)
         ctx.check(ok, "selected-peer-key", se, c, "extend request carries unverified_hop's key and DH part",
                   "the extend request names a different node than the one whose key will be verified")
-    sv = _View(ctx, sic)
+    sv = _body_view(ctx, sic)
     for c in calls(sic, "CreatePayload"):
         pa = _pargs(c, ["circuit_id", "identifier", "node_public_key", "key"], sic) or [None] * 4
         a3 = strip_cast(pa[3]) if pa[3] is not None else None
@@ -2850,13 +3100,13 @@ def rule_unverified_hop_writers(ctx: Ctx) -> None:
     _extend_names_one_node(ctx, se)
     # dh_secret generated per attempt
     for fi in (sic, se):
-        g = [c for v in _View(ctx, fi).closure() for c in calls(v.fi) if call_name(c) == "generate_diffie_secret"]
+        g = [c for v in _entry(ctx, fi).closure() for c in calls(v.fi) if call_name(c) == "generate_diffie_secret"]
         ctx.check(len(g) == 1, "selected-peer-key", fi, fi.node, f"{fi.name}: fresh DH secret per attempt", "DH secret is not generated per attempt")
 
 
 def _closed_members(ctx: Ctx, root: FuncInfo) -> set[FuncInfo]:
     """root and the new helpers that only root (transitively) calls"""
-    members = _closure_functions(_View(ctx, root).closure())
+    members = _closure_functions(_entry(ctx, root).closure())
     changed = True
     while changed:
         changed = False
@@ -2923,7 +3173,7 @@ def rule_responder_keying(ctx: Ctx) -> None:
                 ok = ok and need <= have
         return ok, cnt
 
-    root = _View(ctx, jc)
+    root = _entry(ctx, jc)
     ok, cnt = unused_id_known(root.closure())
     ctx.anchor(cnt, "exit socket installation in join_circuit")
     if not ok:
@@ -2931,7 +3181,7 @@ def rule_responder_keying(ctx: Ctx) -> None:
         callers = [(g, c) for _, g, c in repo.callers_of_name("join_circuit") if g is not None and g not in may_install]
         ok = bool(callers)
         for g, c in callers:
-            w = _View(ctx, g).bind_call(jc, c)
+            w = _body_view(ctx, g).bind_call(jc, c)
             ok = ok and w is not None and unused_id_known(w.closure())[0]
     sites = [st for v in root.closure() for st, k, val in _route_installs(v, "self.exit_sockets")]
     ctx.check(ok, "responder-keying", jc, sites[0],
@@ -3056,7 +3306,7 @@ def _extend_names_one_node(ctx: Ctx, se: FuncInfo) -> None:
     The extend request names the next node by key and, where the relay cannot know it, by address.  Both must belong to the
     same peer: the relay connects to the address, the originator verifies (and lists) the key.
     """
-    v = _View(ctx, se)
+    v = _body_view(ctx, se)
     for c in calls(se, "ExtendPayload"):
         pa = _pargs(c, ["circuit_id", "identifier", "node_public_key", "key", "node_addr"], se)
         if pa is None or pa[4] is None:
@@ -3160,7 +3410,7 @@ def rule_append_only(ctx: Ctx) -> None:
     rets = [r for r in walk_no_nested(hp.node) if isinstance(r, ast.Return)]
     ok = bool(rets) and all(r.value is not None and (_is_tuple_copy_of_hops(resolve(hp, r.value)) or const_value(r.value) == ()) for r in rets)
     ctx.check(ok, "hops-append-only", hp, hp.node, "Circuit.hops returns a tuple copy", "Circuit.hops hands out the mutable hop list")
-    allowed = _closure_functions(_View(ctx, _ours(ctx)).closure())
+    allowed = _closure_functions(_entry(ctx, _ours(ctx)).closure())
     for m, fi, c in repo.callers_of_name("add_hop"):
         if fi is None:
             continue
@@ -3319,7 +3569,7 @@ def _keyerror_handled(v: _View, call: ast.Call) -> bool:
 def rule_relay_pairing(ctx: Ctx) -> None:
     repo = ctx.repo
     oe = repo.method("TunnelCommunity", "on_extend", TC)
-    ev = _View(ctx, oe)
+    ev = _entry(ctx, oe)
     pe = oe.params()[2]
     ctors = ctx.anchor([(v, c) for v in ev.closure() for c in calls(v.fi, "CreateRequestCache")], "CreateRequestCache in on_extend")
     v0, c = ctors[0]
@@ -3341,7 +3591,7 @@ def rule_relay_pairing(ctx: Ctx) -> None:
     ctx.check(ok, "relay-pairing", oe, c, "on_extend: cache(extend id, new to_circuit_id, from circuit) and create(to_circuit_id, cache.number, .., payload.key)",
               "the relay does not pair the forwarded create with the pending extend (identifier / circuit ids / key material)")
     oc = repo.method("TunnelCommunity", "on_created", TC)
-    ov = _View(ctx, oc)
+    ov = _entry(ctx, oc)
     views = ov.closure()
     pl = oc.params()[2]
     pops = [(v, p) for v in views for p in calls(v.fi) if isinstance(p.func, ast.Attribute) and p.func.attr == "pop"
